@@ -105,6 +105,7 @@ type vc17Out struct {
 	Outcomes   int    `json:"distinct_outcomes"`
 	Capped     bool   `json:"capped"`
 	Hooked     bool   `json:"instrumented_build"`
+	SelfTest   string `json:"scheduler_self_test"`
 	Violations []struct {
 		Key  string  `json:"key"`
 		Desc string  `json:"desc"`
@@ -167,7 +168,7 @@ func c17Run(c *engine.Ctx) {
 			c.Count("transitions", out.Schedules)
 			c.Count("traces_validated_against_impl", out.Schedules)
 			c.Note("sched", map[string]any{"scenarios": out.Scenarios, "schedules": out.Schedules, "scheduling_points": out.Points,
-				"max_points_in_one_schedule": out.MaxPoints, "distinct_outcomes": out.Outcomes, "instrumented_build": out.Hooked})
+				"max_points_in_one_schedule": out.MaxPoints, "distinct_outcomes": out.Outcomes, "instrumented_build": out.Hooked, "scheduler_self_test": out.SelfTest})
 			if !out.Hooked {
 				c.SetCapped("scheduler binary was built without the instrumentation hook")
 			}
